@@ -11,7 +11,7 @@ pub fn generate(family: &str, seed: u64) -> Program {
 }
 
 fn sub_direct() -> SubCfg {
-    SubCfg { kind: SubKind::Direct, read_state: false, gate: None, sleep_ms: 0, shared: false }
+    SubCfg { kind: SubKind::Direct, read_state: false, gate: None, sleep_ms: 0, shared: false, ..Default::default() }
 }
 
 /// family stop: producers, thunks and readers racing stop() / close();stop() / drop(DroppableStore)
@@ -46,6 +46,7 @@ pub fn stop(seed: u64) -> Program {
             gate: None,
             sleep_ms: 0,
             shared: false,
+            ..Default::default()
         });
         main.push(Op::AddSub { store: 0, sub: subs.len() - 1, reg: regs });
         regs += 1;
